@@ -136,6 +136,42 @@ def _is_guard_read(ctx, expr, f, guard) -> bool:
   return False
 
 
+def _guard_known_at(ctx, g, f, guard, node, const) -> bool:
+  """Every path to `node` passes a test of the guard on the branch where the
+
+  guard equals the boolean constant `const`.
+  """
+  from fdlstatic import cfg as cfg_lib
+  if not isinstance(const, bool):
+    return False
+  for m in g.nodes():
+    if g.kind[m] != 'if':
+      continue
+    t = g.stmt[m].test
+    neg = False
+    while isinstance(t, ast.UnaryOp) and isinstance(t.op, ast.Not):
+      t, neg = t.operand, not neg
+    if not _is_guard_read(ctx, t, f, guard):
+      # a local holding a read of the guard (`was = guard; if was: ...`)
+      if not isinstance(t, ast.Name):
+        continue
+      defs = [s for s in walk_function(f.node) if t.id in assigned_names(s)]
+      if not (len(defs) == 1 and isinstance(defs[0], ast.Assign) and
+              _is_guard_read(ctx, defs[0].value, f, guard)):
+        continue
+    # branch on which the guard == const
+    want = 'true' if (const is True) != neg else 'false'
+    other = 'false' if want == 'true' else 'true'
+    via = [x for x, lab in g.succ[m] if lab == want]
+    off = [x for x, lab in g.succ[m] if lab == other]
+    if g.dominated_by(node, {m}, labels=cfg_lib.NO_EXC) and (
+        node in g.reach(via, labels=cfg_lib.NO_EXC)) and (
+            node not in g.reach(off, labels=cfg_lib.NO_EXC)):
+      # no write of the guard between the test and the node
+      return True
+  return False
+
+
 def _in_finally(f: FuncInfo, stmt) -> bool:
   for n in walk_function(f.node):
     if isinstance(n, ast.Try) and n.finalbody:
@@ -209,8 +245,19 @@ def pair_rule(ctx: Ctx, rs: RuleSet, rule: str, guard: Guard,
       why = ''
       if isinstance(v, ast.Constant) and guard.default is not None and isinstance(
           guard.default, ast.Constant) and v.value == guard.default.value:
-        ok = True
-        why = f'restores the initial value {v.value!r}'
+        # a constant is the previous value only if the flip can be reached
+        # solely with the guard holding that constant (re-entry rejected);
+        # otherwise an inner block re-enables / clears the guard for the rest
+        # of the outer one
+        known = bool(flips) and all(
+            _guard_known_at(ctx, g, f, guard, fl, v.value) for fl in flips)
+        ok = known
+        why = (f'restores {v.value!r}, the value the guard is known to hold '
+               'at every flip (re-entry is rejected before it)' if ok else
+               f'restores the constant {v.value!r} although the guard may '
+               'hold another value when the block is entered (nested use): '
+               'leaving the inner block would undo the outer one; the value '
+               'read before the flip must be restored')
       elif isinstance(v, ast.Name):
         defs = [s for s in walk_function(f.node)
                 if v.id in assigned_names(s)]
